@@ -183,25 +183,39 @@ def coq_eval_cases(outdir, shards, jobs=None):
 # ----------------------------------------------------------------------------- Go
 
 def harness_prepare():
-    """go.sum of the harness module = /repo/go.sum + the extra sums we need."""
+    """go.sum of the harness module = /repo/go.sum + the extra sums we need.
+    Default repository: harness/go.mod itself (replace => /repo).  A scratch repository
+    (VERIF_REPO, used for mutant runs) gets its own module file under build/, passed with
+    -modfile, so that concurrent runs against different trees do not disturb one another.
+    Returns the extra `go build` arguments."""
     base = open(os.path.join(REPO, "go.sum")).read()
     extra_p = os.path.join(HARNESS, "go.sum.extra")
     extra = open(extra_p).read() if os.path.exists(extra_p) else ""
-    lines = sorted(set((base + "\n" + extra).splitlines()) - {""})
-    write_if_changed(os.path.join(HARNESS, "go.sum"), "\n".join(lines) + "\n")
+    old_sum_p = os.path.join(HARNESS, "go.sum")
+    old_sum = open(old_sum_p).read() if os.path.exists(old_sum_p) else ""
+    lines = sorted(set((base + "\n" + extra + "\n" + old_sum).splitlines()) - {""})
     gomod = os.path.join(HARNESS, "go.mod")
     txt = open(gomod).read()
+    if REPO == "/repo":
+        write_if_changed(old_sum_p, "\n".join(lines) + "\n")
+        new = re.sub(r"replace github.com/cloudwego/thriftgo => .*", "replace github.com/cloudwego/thriftgo => /repo", txt)
+        write_if_changed(gomod, new)
+        return []
+    d = os.path.join(BUILD, "gomod-" + hashlib.sha256(REPO.encode()).hexdigest()[:8])
+    os.makedirs(d, exist_ok=True)
     new = re.sub(r"replace github.com/cloudwego/thriftgo => .*", "replace github.com/cloudwego/thriftgo => " + REPO, txt)
-    write_if_changed(gomod, new)
+    write_if_changed(os.path.join(d, "go.mod"), new)
+    write_if_changed(os.path.join(d, "go.sum"), "\n".join(lines) + "\n")
+    return ["-modfile=" + os.path.join(d, "go.mod")]
 
 
 def go_build(pkg, name, tags="verif", timeout=900):
-    """Build a harness command against /repo's current tree. Returns (ok, log, binpath)."""
+    """Build a harness command against the repository under test. Returns (ok, log, binpath)."""
     os.makedirs(BIN, exist_ok=True)
     out_bin = os.path.join(BIN, name)
     with Lock("go"):
-        harness_prepare()
-        rc, out = sh(["go", "build", "-tags", tags, "-o", out_bin, pkg], cwd=HARNESS, timeout=timeout)
+        extra = harness_prepare()
+        rc, out = sh(["go", "build"] + extra + ["-tags", tags, "-o", out_bin, pkg], cwd=HARNESS, timeout=timeout)
     return rc == 0, out, out_bin
 
 
